@@ -63,9 +63,9 @@ pub fn bfs(max_chans: usize, max_depth: usize, max_states: usize) -> Graph {
 
 fn params(tier: Tier) -> (usize, usize, usize) {
     if tier.is_quick() {
-        (2, 5, 3000)
+        (2, 6, 100000)
     } else {
-        (3, 8, 40000)
+        (3, 7, 400000)
     }
 }
 
@@ -122,10 +122,14 @@ pub fn run(tier: Tier, part_only: bool) -> i32 {
     rep.set("traces_validated_against_impl", json!(validated));
     rep.set("model_depth", json!(g.depth));
     rep.set("model_closed_under_bounds", json!(g.closed));
+    let complete_to_depth = g.states < maxs;
+    rep.set("every_program_up_to_depth_covered", json!(complete_to_depth));
     rep.set("model_bounds", json!({"max_channels": mc, "max_depth": depth, "max_queue_per_channel": 2, "max_live_handles": 4, "max_states": maxs}));
-    rep.set("exhaustive", json!(g.closed));
-    if !g.closed {
-        rep.set("cap_note", json!("the model state graph was cut at the stated depth / state bound: every state and transition up to it was covered on all three builds"));
+    rep.set("exhaustive", json!(complete_to_depth));
+    if complete_to_depth {
+        rep.set("bound_note", json!("exhaustive within the stated bounds: every program up to the depth bound over the model's alphabet was executed on all three builds; longer programs are not covered"));
+    } else {
+        rep.set("cap_note", json!("the model state graph hit its state cap before the depth bound: every state and transition found was covered on all three builds, but not every program up to that depth"));
     }
     rep.set("rule", json!("states/transitions are those of the reference model's graph under the alphabet {new channel, new channel through a one-shot server (new, connect, send, accept), clone, drop handle, send data, send data+region, embed sender, embed receiver, recv when the model defines it, try_recv, try_recv_timeout(0), add receiver to the set, drain the set while events are pending, drop receiver}; every transition is one program executed from scratch on each of the three builds with all results compared to the model (values, order, empty, disconnected, send failures; select results per member)"));
     rep.assume("operations the statement does not list (connecting to a non-existent name, selecting on an empty set, using a moved-out receiver, a blocking call the model says would block) are not in the alphabet");
